@@ -198,6 +198,50 @@ func c11Selector(c *Case, fk faultKind) {
 	c.NonTrivial(key)
 	c.Count("position:selector")
 	m2(c, &M2Case{Prog: p, Files: []InFile{{Name: "in.json", Data: []byte(`{"a": [1]}`)}}, Selectors: []Expr{f}, Desc: "planted runtime fault " + key})
+	// the selector itself prints before it fails; and a failing selector after one that was processed
+	c.Count("position:selector-after-own-output")
+	m2(c, &M2Case{Prog: p, Files: []InFile{{Name: "in.json", Data: []byte(`{"a": [1]}`)}}, Selectors: []Expr{Arr(CallE(V("printf"), S("selector-output|")), fk.mk())},
+		Desc: "planted runtime fault " + fk.name + "@selector, after output printed by the same selector"})
+	p2 := &Program{Items: []any{&Rule{Kind: "BEGIN", Body: Blk(Pr(S("early")))}, &Rule{Kind: "pattern", Body: Blk(Pr(S("rule"), V("$")))}, &Rule{Kind: "END", Body: Blk(Pr(S("never-END")))}}}
+	m2(c, &M2Case{Prog: p2, Files: []InFile{{Name: "in.json", Data: []byte(`{"a": [1, 2]}`)}}, Selectors: []Expr{Mem(V("$"), "a"), Arr(CallE(V("printf"), S("second-selector|")), fk.mk())},
+		Desc: "planted runtime fault " + fk.name + "@second selector, after the first was processed"})
+}
+
+// ---- late faults: one expression site works a few times and then fails on other data (laws on the
+// implementation alone; expected output computed by hand)
+
+var c11Late = []struct{ prog, want string }{
+	{"{ printf('%s|', $.v) } END { print 'never' }", "a|"},
+	{"BEGIN { printf('%s;', 'x'); printf('%s;', 5); print 'never' }", "x;"},
+	{"BEGIN { printf('%f;', 1.5); printf('%f;', 'str'); print 'never' }", "1.5;"},
+	{"BEGIN { for (x in ['a', 'b', 3, 'd']) { printf('%s,', x) } print 'never' }", "a,b,"},
+	{"function show(v) { printf('[%3s]', v) } BEGIN { show('s'); show('tt'); show([1]); print 'never' }", "[  s][ tt]"},
+	{"BEGIN { fmt = '%s-'; printf(fmt, 'a'); printf(fmt, 'b'); printf(fmt, null); print 'never' }", "a-b-"},
+	{"BEGIN { printf('%s %s|', 'a', 'b'); printf('%s %s|', 'a'); print 'never' }", "a b|"},
+	{"{ printf('%5s|%-3f|', $.v, 1) } END { print 'never' }", "    a|1  |"},
+	{"BEGIN { for (i = 0; i < 6; i++) { print 12 / (3 - i) } print 'never' }", "4\n6\n12\n"},
+	{"BEGIN { for (i = 0; i < 6; i++) { print 7 % (2 - i) } print 'never' }", "1\n0\n"},
+	{"BEGIN { pats = ['a', 'b', '(', 'c']; for (p in pats) { print 'abc' ~ p } print 'never' }", "true\ntrue\n"},
+	{"BEGIN { arr = [1, 2, 3]; for (i = 2; i > -6; i--) { print arr[i - 2] } print 'never' }", "1\n3\n2\n1\n"},
+	{"BEGIN { v = 'str'; for (i = 0; i < 3; i++) { print v.upper(); v = 5 } print 'never' }", "STR\n"},
+	{"BEGIN { o = {k: {n: 1}}; for (i = 0; i < 3; i++) { o.k.n = o.k.n + 1; print o.k.n; o.k = 7 } print 'never' }", "2\n"},
+	{"function f(v) { return v.length() } BEGIN { print f('ab'); print f([1, 2, 3]); print f(5); print 'never' }", "2\n3\n"},
+	{"BEGIN { fns = ['x', 'y']; print fns.length(); print fns.length(); fns = 3; print fns.length(); print 'never' }", "2\n2\n"},
+	{"{ print [1, 2][$.i] } END { print 'never' }", "2\n1\n2\n"},
+	{"{ print json($.c) < 'z', $.c < 1 } END { print 'never' }", "true true\n"},
+}
+
+func c11LateRun(c *Case, k int) {
+	l := c11Late[k]
+	in := `{"v": "a", "i": 1, "c": 0} {"v": 2, "i": 0, "c": [1]} {"v": "c", "i": -1, "c": 2} {"v": "d", "i": -3, "c": 3}`
+	lib := RunLib(l.prog, []InFile{{Name: "in.json", Data: []byte(in)}}, nil, RunOpts{Budget: 200000})
+	c.NonTrivial("late:" + l.prog)
+	c.Count("late_fault_programs")
+	if lib.Class == "runtime" && string(lib.Stdout) == l.want {
+		c.Held()
+		return
+	}
+	c.Violation(fmt.Sprintf("a site that worked before fails on later data: the run must stop there as a runtime error with stdout %q; got %s (%s) with stdout %q | program: %s", l.want, lib.Class, lib.Msg, clip(string(lib.Stdout), 100), l.prog), nil, map[string]any{"program": l.prog, "input": in})
 }
 
 // ---------------------------------------------------------------------------
@@ -501,6 +545,10 @@ func c11Run(c *Case) {
 	if c.Tier == "thorough" {
 		ns = 200000
 	}
+	if c.Idx >= m && c.Idx < m+len(c11Late) {
+		c11LateRun(c, c.Idx-m)
+		return
+	}
 	switch {
 	case c.Idx < m:
 		c11Matrix(c, c.Idx)
@@ -514,7 +562,7 @@ func c11Run(c *Case) {
 func init() {
 	register(&Prop{
 		ID: "C11", Level: "fault_enumeration",
-		Rule:          "fault enumeration. (a) syntax splices: a generated valid host program (starting with BEGIN { print 'early' }) x 25 splice kinds (6 illegal bytes, unmatched ) ] }, lone quote, missing operands, return outside a function, break/continue outside a loop, assignment to a literal / arithmetic result / array literal, unterminated string / regex) inserted at a random token boundary or statement position: outcome must be `syntax` with empty stdout. (b) runtime faults: 28 fault kinds x 35 syntactic positions (every operand slot, prefix operand, callee, call/method argument, array element, object value, index, member base, if/while condition, for initialiser/condition/post, for-in iterable, match subject/body expression/body block, print/printf argument, nested blocks) x 3 contexts (BEGIN; pattern rule on the 2nd of 3 elements; function called from END), plus rule pattern, return value, BEGINFILE, ENDFILE and -r selector placements; each planted statement is surrounded by print 'pre' / print 'post'; stdout prefix and `runtime` outcome vs the reference model. Sampled: the same faults planted at random positions of structured programs. Every cell is non-trivial; distinct by (fault, position, context) or program text.",
+		Rule:          "fault enumeration. (a) syntax splices: a generated valid host program (starting with BEGIN { print 'early' }) x 25 splice kinds (6 illegal bytes, unmatched ) ] }, lone quote, missing operands, return outside a function, break/continue outside a loop, assignment to a literal / arithmetic result / array literal, unterminated string / regex) inserted at a random token boundary or statement position: outcome must be `syntax` with empty stdout. (b) runtime faults: 28 fault kinds x 35 syntactic positions (every operand slot, prefix operand, callee, call/method argument, array element, object value, index, member base, if/while condition, for initialiser/condition/post, for-in iterable, match subject/body expression/body block, print/printf argument, nested blocks) x 3 contexts (BEGIN; pattern rule on the 2nd of 3 elements; function called from END), plus rule pattern, return value, BEGINFILE, ENDFILE and -r selector placements (the selector alone, after output printed by the same selector, and as second selector after the first was processed); 18 late faults (a printf / arithmetic / index / regex / method site that worked on earlier data and fails on later data, output computed by hand); each planted statement is surrounded by print 'pre' / print 'post'; stdout prefix and `runtime` outcome vs the reference model. Sampled: the same faults planted at random positions of structured programs. Every cell is non-trivial; distinct by (fault, position, context) or program text.",
 		NumCases:      c11Cases,
 		Run:           c11Run,
 		MinConclusive: func(tier string) int { return 8000 },
